@@ -290,16 +290,21 @@ class UndefinedInitialNumericRemover(engines.engine.Engine, CompilerMixin):
                         is_value_defined_fluents[fluent_exp.fluent()](*fluent_exp.args)
                     )
 
-                for fluent_exp in affected_undef_fluent_exps:
+                for eff in list(action.effects):
+                    fluent_exp = eff.fluent
+                    if fluent_exp not in affected_undef_fluent_exps:
+                        continue
                     # if this ground instance was already read above (increase/decrease
                     # effects always are), its tracker is already a precondition and is
                     # therefore already guaranteed to be True; no need to set it again
                     if fluent_exp not in undef_fluent_exps:
+                        # the tracker becomes True only when the assignment fires
                         action.add_effect(
                             is_value_defined_fluents[fluent_exp.fluent()](
                                 *fluent_exp.args
                             ),
                             True,
+                            eff.condition,
                         )
 
             elif isinstance(action, DurativeAction):
